@@ -143,4 +143,30 @@ theorem clean_spec {raw : List Nat} {total : Nat} (h : BoundsOK raw total) :
       simp only [hlt, if_false]
       exact ⟨_, rfl, rfl, rfl, hlast, hm, hall⟩
 
+theorem walk2_length (b c : List Nat) (lastElem : Bool) (bLast : Nat) (lastDistinct : Bool) (k : Nat) :
+    ∀ (bs : List Nat) (j i : Nat) (out : List (List Nat)),
+      walk2 b c lastElem bLast lastDistinct k bs j i = some out → out.length = bs.length
+  | [], _, _, out, h => by simp [walk2] at h; subst h; rfl
+  | bj :: rest, j, i, out, h => by
+    simp only [walk2, Option.bind_eq_bind, Option.bind_eq_some_iff, Option.pure_def, Option.some.injEq] at h
+    obtain ⟨⟨i1, tmp1⟩, _, ⟨i2, tmp2⟩, _, more, hmore, rfl⟩ := h
+    simp [walk2_length b c lastElem bLast lastDistinct k rest (j + 1) i2 more hmore]
+
+/-- **`repartition(divisions=b)` produces exactly `len(b) − 1` partitions** (whenever the layer is built) -/
+theorem divisionsLayer_count (a b : List Nat) (force : Bool) (L : DLayer)
+    (h : divisionsLayer a b force = some L) : L.out.length + 1 = b.length := by
+  unfold divisionsLayer at h
+  simp only [Option.bind_eq_bind, Option.bind_eq_some_iff, Option.pure_def, Option.some.injEq] at h
+  obtain ⟨⟨a0, aL, bL, bL2⟩, hg, s, _, ⟨c, d⟩, _, d', _, out, hout, rfl⟩ := h
+  have := walk2_length _ _ _ _ _ _ _ _ _ _ hout
+  simp only [this, List.length_drop]
+  have hb : 2 ≤ b.length := by
+    apply Nat.le_of_not_lt
+    intro hcon
+    unfold dlGuards at hg
+    split at hg
+    · cases hg
+    · simp [hcon] at hg
+  omega
+
 end Dask.Repart
